@@ -37,6 +37,7 @@ WITNESSES = [
     b"package p\ntype I interface{ M(int) (string, error) }\n",        # unnamed params/results in an interface
     b"package p\nfunc F[T any, U comparable](x T, ys ...U) (r chan<- T, err error) { return }\n",
     b"package p\nvar x P[int, string]\nvar y = a[1:2:3]\nvar f = func(a int) int { return a }\n",
+    b"package p\nvar a, b, c = 1, 2, 3\nconst x, y, z, w = 1, 2, 3, 4\nvar (\n\tm, n, o int = f(1), g[2], h.i\n)\n",
     b"package p\nimport (\n\t\"fmt\"\n\tx \"os\"\n)\nconst (\n\tA = iota\n\tB\n)\ntype T struct {\n\tA int `json:\"a\"`\n\tB, C []*T\n\tfmt.Stringer\n}\n",
 ]
 
@@ -127,9 +128,13 @@ def run(ctx):
     ctx.log("model converted %d trees" % len(live))
     mres = {i: l.split("\t") for i, l in zip(live, mlines)}
 
+    root = goroot()
+
     def rel(c):
-        c = c.replace(vlib.REPO + "/", "").replace(goroot() + "/", "GOROOT/")
-        return c if len(c) < 200 else c[:200] + "..."
+        f = c.split("\t")
+        if f[0] == "src":
+            return "src\t" + vlib.sha(bytes.fromhex(f[1]))
+        return c.replace(vlib.REPO + "/", "").replace(root + "/", "GOROOT/")
 
     # B: whole result trees, model vs implementation
     ctx.diff_lines("to(from(t))~togo.ASTFile(fromgo.ASTFile(f))", [rel(cases[i]) for i in live],
